@@ -337,3 +337,140 @@ def _regrid_dense(ctx: Ctx) -> None:
                                    f"re-expressed in the new grid's convention: first {to_rat(p1.flat()[0])} expected {to_rat(want.flat()[0])}")
                 return True, ""
             _guard(ctx, "T6x.regrid", f"{cls}:{ac_from}->{ac_to}", fD, f"class={cls} align_corners {ac_from}->{ac_to}", thd)
+
+
+# ------------------------------------------------------------------------------------------------ composites / linked inverses
+class HostDictCallable(tae.HostObject):
+    """A callable standing in for a network that predicts a dictionary of component parameters from the conditioning input."""
+
+    is_module = False
+
+    def __init__(self, shapes: Dict[str, Sequence[int]]):
+        self.shapes = {k: list(v) for k, v in shapes.items()}
+
+    def __call__(self, *args, **kwargs):
+        out = {}
+        for k, shape in self.shapes.items():
+            base = STensor.symbols(f"net_{k}_", shape)
+            out[k] = base.mul(args[0]) if args and isinstance(args[0], (STensor, Rat, int, Fraction)) else base
+        return out
+
+
+def run_composite_histories(ctx: Ctx) -> None:
+    prog = ctx.prog
+    C = "deepali.spatial.composite"
+    fU = prog.func(C, "CompositeTransform.update")
+    fGI = prog.func("deepali.spatial.generic", "GenericSpatialTransform.inverse")
+    fGU = prog.func("deepali.spatial.generic", "GenericSpatialTransform.update")
+    for f in (fU, fGI, fGU, prog.func(C, "CompositeTransform.clear_buffers")):
+        ctx.fn(f)
+    ctx.rule("T6x.composite", "a composite (SequentialTransform of a linear member with predicted parameters and a dense member) called after any "
+                              "history of re-conditioning / replacing / editing / clearing operations on its members equals the composition of "
+                              "freshly recomputed twins of its members (every member's cached state is refreshed by the composite's update)")
+    ctx.rule("T6x.linked-inverse", "the linked inverse (inverse(link=True), .inv) of a transform with predicted parameters — stand-alone, member "
+                                   "of a composite, or a GenericSpatialTransform driven by one network — evaluates the parameters its counterpart "
+                                   "holds at the moment of the call: after re-conditioning the original and calling it, inv(t(x)) = x")
+    Seq = prog.cls(C, "SequentialTransform")
+    Tr = prog.cls("deepali.spatial.linear", "Translation")
+    DDF = prog.cls("deepali.spatial.nonrigid", "DisplacementFieldTransform")
+
+    def build(env):
+        it = env.it
+        lin = it.new(Tr, env.grid, params=HostCallable([1, 2], tag="tnet"))
+        it.method(lin, "condition_", Rat.atom("c0"))
+        ddf = it.new(DDF, env.grid, params=False)
+        env.randomize(ddf)
+        seq = it.new(Seq, lin, ddf)
+        return seq, lin, ddf
+
+    def ops(env, seq, lin, ddf):
+        it = env.it
+
+        def recond():
+            env.counter += 1
+            it.method(lin, "condition_", Rat.atom(f"c{env.counter}"))
+
+        def data_():
+            it.method(ddf, "data_", env.sym(list(it.method(ddf, "data").shape)))
+
+        def inplace():
+            p = it.method(ddf, "data")
+            p.add_(env.sym(list(p.shape)))
+
+        def call():
+            it.call_value(seq, [STensor.symbols("x", [1, 2, 2])], {})
+        return {"member.condition_": recond, "member.data_": data_, "member.inplace-edit": inplace, "update": lambda: it.method(seq, "update"),
+                "call": call, "clear_buffers": lambda: it.method(seq, "clear_buffers"), "disp": lambda: it.method(seq, "disp")}
+
+    names = ["member.condition_", "member.data_", "member.inplace-edit", "update", "call", "clear_buffers", "disp"]
+    seqs = [s for n in (1, 2) for s in itertools.product(names, repeat=n)]
+
+    def th_hist():
+        bad = []
+        for hist in seqs:
+            env = TEnv(ctx, 2)
+            it = env.it
+            seq, lin, ddf = build(env)
+            it.method(seq, "update")
+            table = ops(env, seq, lin, ddf)
+            for name in hist:
+                table[name]()
+            x = STensor.symbols("x", [1, 2, 2])
+            got = it.call_value(seq, [x], {})
+            c1, c2 = clone_fresh(it, lin), clone_fresh(it, ddf)
+            it.method(c1, "update")
+            it.method(c2, "update")
+            want = it.method(c2, "forward", it.method(c1, "forward", x))
+            if not teq(got, want):
+                bad.append(" -> ".join(hist))
+        if bad:
+            return False, f"{len(bad)} of {len(seqs)} histories end in a call that does not use the members' current state, e.g. {bad[0]}"
+        return True, ""
+    _guard(ctx, "T6x.composite", "sequential(translation[callable], ddf)", fU, "composite histories up to length 2", th_hist)
+
+    # linked inverses
+    def th_link_member():
+        env = TEnv(ctx, 2)
+        it = env.it
+        lin = it.new(Tr, env.grid, params=HostCallable([1, 2], tag="tnet"))
+        it.method(lin, "condition_", Rat.atom("c0"))
+        rot = it.new(prog.cls("deepali.spatial.linear", "AnisotropicScaling"), env.grid, params=False)
+        p = it.method(rot, "data")
+        for i, v in zip(p.idx, [Rat.atom("k0"), Rat.atom("k1")]):
+            p.store[i] = v
+            env.facts.declare_positive(v)
+        seq = it.new(Seq, rot, lin)
+        x = STensor.symbols("x", [1, 2, 2])
+        it.call_value(seq, [x], {})
+        for via in ("inv", "inverse"):
+            inv = it.getattr(seq, "inv") if via == "inv" else it.method(seq, "inverse", link=True)
+            it.method(lin, "condition_", Rat.atom("c1" if via == "inv" else "c2"))
+            y = it.call_value(seq, [x], {})
+            x2 = it.call_value(inv, [y], {})
+            if not teq(x2, x):
+                return False, f"sequential composite: after re-conditioning a member, the linked inverse ({via}) taken before no longer inverts"
+        return True, ""
+    _guard(ctx, "T6x.linked-inverse", "sequential(scaling, translation[callable])", fU, "linked inverse of a composite", th_link_member)
+
+    def th_link_generic():
+        env = TEnv(ctx, 2)
+        it = env.it
+        G = "deepali.spatial.generic"
+        cfg = Obj(prog.cls(G, "TransformConfig"))
+        cfg.attrs.update({"transform": "Affine", "affine_model": "TS", "rotation_model": "ZXZ", "control_point_spacing": 1,
+                          "scaling_and_squaring_steps": 1, "flip_grid_coords": False})
+        net = HostDictCallable({"translation": [1, 2], "scaling": [1, 2]})
+        t = it.new(prog.cls(G, "GenericSpatialTransform"), env.grid, params=net, config=cfg)
+        it.method(t, "condition_", Rat.atom("c0"))
+        x = STensor.symbols("x", [1, 2, 2])
+        it.call_value(t, [x], {})
+        for via in ("inv", "inverse"):
+            inv = it.getattr(t, "inv") if via == "inv" else it.method(t, "inverse", link=True)
+            it.method(t, "condition_", Rat.atom("c1" if via == "inv" else "c2"))
+            y = it.call_value(t, [x], {})
+            x2 = it.call_value(inv, [y], {})
+            if not teq(x2, x):
+                return False, (f"GenericSpatialTransform with predicted parameters: after re-conditioning and calling the transform, the linked "
+                               f"inverse ({via}) taken before does not invert it (its members evaluate stale parameters)")
+        return True, ""
+    _guard(ctx, "T6x.linked-inverse", "generic[callable]", fGI, "linked inverse of GenericSpatialTransform", th_link_generic)
